@@ -148,10 +148,19 @@ def _run_single(ctx, case, pair, prefix):
         tuple(bufs) if case.get("container") == "tuple" else list(bufs))
     invalid = [n for n in case["lens"] if not _valid(case, n)]
     exc = None
+    node = pair.rig.node
+    node.deadline = node.t + 400 * W.MS * len(bufs)
     try:
         tx.send(arg, ask_no_ack=case["ask_no_ack"])
     except ValueError as e:
         exc = e
+    except W.VirtualDeadline:
+        ctx.violation(prefix + "send-does-not-return", "send() of lengths %r (static=%r) did not "
+                      "return within %d virtual ms" % (case["lens"], case["static"],
+                                                       400 * len(bufs)), case)
+        return
+    finally:
+        node.deadline = None
     pair.rig.node.idle(2 * W.MS)
     loaded = _tx_bytes_on_bus(rt)
     if invalid:
